@@ -36,6 +36,7 @@ type zzTxDef struct {
 	credits  []int // output indexes credited to the wallet
 	change   []bool
 	coinbase bool
+	zeroOK   bool // output amounts may be 0 (a zero-value credit is consensus-valid)
 }
 
 type zzTx struct {
@@ -57,12 +58,13 @@ func zzBuildUniverse(defs []zzTxDef) []*zzTx {
 			op := wire.OutPoint{Index: 0xffffffff}
 			tx.AddTxIn(wire.NewTxIn(&op, []byte{0x01, byte(i)}, nil))
 		}
-		for k, in := range d.ins {
+		for _, in := range d.ins {
 			var op wire.OutPoint
 			if in.parent < 0 {
+				// an external outpoint is identified by idx alone, so two
+				// transactions naming the same idx conflict
 				op.Hash[0] = 0xee
-				op.Hash[1] = byte(i)
-				op.Hash[2] = byte(k)
+				op.Hash[1] = byte(in.idx)
 				op.Index = in.idx
 			} else {
 				op = wire.OutPoint{Hash: txs[in.parent].hash, Index: in.idx}
@@ -72,7 +74,11 @@ func zzBuildUniverse(defs []zzTxDef) []*zzTx {
 		t := &zzTx{def: d, msg: tx}
 		for k := 0; k < d.nOuts; k++ {
 			a := verifrt.I64("amt")
-			verifrt.Assume(verifrt.And(a >= 1, a <= zzMaxAmount))
+			if d.zeroOK {
+				verifrt.Assume(verifrt.And(a >= 0, a <= zzMaxAmount))
+			} else {
+				verifrt.Assume(verifrt.And(a >= 1, a <= zzMaxAmount))
+			}
 			t.amt = append(t.amt, a)
 			tx.AddTxOut(wire.NewTxOut(a, []byte{0x51, byte(i), byte(k)}))
 		}
@@ -143,6 +149,28 @@ func zzU6() []zzTxDef { // several credits with a non-credit output in between; 
 		{name: "B", ins: []zzIn{{0, 2}, {-1, 5}}, nOuts: 1, credits: nil, change: nil},
 		{name: "C", ins: []zzIn{{0, 0}}, nOuts: 2, credits: []int{1}, change: []bool{false}},
 	}
+}
+
+func zzU7() []zzTxDef { // coinbase with a foreign output 0 and a credit at index 1; both have known spenders
+	return []zzTxDef{
+		{name: "CB", coinbase: true, nOuts: 2, credits: []int{1}, change: []bool{false}},
+		{name: "S", ins: []zzIn{{0, 1}}, nOuts: 1, credits: []int{0}, change: []bool{true}},
+		{name: "F", ins: []zzIn{{0, 0}}, nOuts: 1, credits: []int{0}, change: []bool{false}},
+	}
+}
+
+func zzU8() []zzTxDef { // P pays the wallet and a stranger; R spends the stranger's output back to the wallet; P' conflicts with P
+	return []zzTxDef{
+		{name: "P", ins: []zzIn{{-1, 0}}, nOuts: 2, credits: []int{0}, change: []bool{true}},
+		{name: "R", ins: []zzIn{{0, 1}}, nOuts: 1, credits: []int{0}, change: []bool{false}},
+		{name: "P'", ins: []zzIn{{-1, 0}}, nOuts: 1, credits: []int{0}, change: []bool{true}},
+	}
+}
+
+func zzU1z() []zzTxDef { // U1 whose first transaction may carry zero-value credits
+	d := zzU1()
+	d[0].zeroOK = true
+	return d
 }
 
 // ---------------------------------------------------------------- blocks
@@ -443,8 +471,8 @@ type zzEvent struct {
 func (w *zzWorld) pick(allowRepeat bool) *zzEvent {
 	n := len(w.txs)
 	l := w.l
-	// event menu: see(t) | mineNew(t) | mineSame(t) | remove(t) | rollback(k) | repeat
-	nEv := 4*n + 4
+	// event menu: see(t) | mineNew(t) | mineSame(t) | remove(t) | rollback(k) | redeliver(t) | repeat
+	nEv := 5*n + 4
 	if allowRepeat {
 		nEv++
 	}
@@ -532,6 +560,20 @@ func (w *zzWorld) pick(allowRepeat bool) *zzEvent {
 				return w.update(func(ns walletdb.ReadWriteBucket) error { return w.store.Rollback(ns, h) })
 			},
 			model: func() { l.rollback(h) },
+		}
+	case c < 5*n+4:
+		// the confirmation of an already confirmed transaction is delivered
+		// again (rescan, duplicate notification): same block, same credits
+		t := c - (4*n + 4)
+		if l.status[t] != zzMined {
+			return nil
+		}
+		b := zzBlock(l.height[t], l.variant[t])
+		verifrt.Reach("redeliver")
+		return &zzEvent{
+			name:  "redeliver " + w.txs[t].def.name,
+			apply: func(w *zzWorld) error { return w.update(func(ns walletdb.ReadWriteBucket) error { return w.insert(ns, t, b) }) },
+			model: func() {},
 		}
 	default:
 		if w.last == nil {
